@@ -824,3 +824,7 @@ mod codec_tests {
         }
     }
 }
+
+#[cfg(cberner_raptorq_verif)]
+#[path = "/verif/hooks/decoder_hooks.rs"]
+pub(crate) mod verif_hooks;
